@@ -8,6 +8,7 @@ import (
 	osexec "os/exec"
 	"path/filepath"
 	"runtime/pprof"
+	"strconv"
 	"sync"
 
 	"verifh/ev"
@@ -21,7 +22,7 @@ const nChildren = 3
 // with one cheap placement (batch 3, view offset 1, every row position).
 func childTables() []*table {
 	var out []*table
-	for _, ks := range keySets(65536) {
+	for _, ks := range keySets(wide) {
 		out = append(out, runConfig(ks, 3, 1, 1))
 	}
 	return out
@@ -98,7 +99,10 @@ func childMain(path string) {
 	}
 }
 
-func runProc(r *ev.Run, cov ev.Coverage, parent []*table) {
+func runProc(r *ev.Run, cov ev.Coverage) {
+	// the parent's own tables, computed exactly like the children's (same
+	// placement), so that only the process differs
+	parent := childTables()
 	exe, err := os.Executable()
 	if err != nil {
 		ev.Fatal("os.Executable: %v", err)
@@ -121,7 +125,7 @@ func runProc(r *ev.Run, cov ev.Coverage, parent []*table) {
 		wg.Add(1)
 		go func() {
 			defer wg.Done()
-			cmd := osexec.Command(exe, "-c05-child", files[i])
+			cmd := osexec.Command(exe, "-c05-child", files[i], strconv.Itoa(wide))
 			// a different environment per child: nothing in it may influence the assignment
 			cmd.Env = append(os.Environ(), fmt.Sprintf("C05_CHILD_NO=%d", i), fmt.Sprintf("GOMAXPROCS=%d", 1+i))
 			out, err := cmd.CombinedOutput()
@@ -151,7 +155,7 @@ func runProc(r *ev.Run, cov ev.Coverage, parent []*table) {
 				raw := int(pt.raw[id])
 				if ct.hash[id] != pt.hash[id] && !reported {
 					reported = true
-					r.Violate(fmt.Sprintf("C05/proc/%s/hash-differs-between-processes", ks.name),
+					r.Violate(fmt.Sprintf("C05/proc/%s/hash-differs-between-processes", ks.class()),
 						fmt.Sprintf("Frame.Hash of key %s (%s) is %d in the parent process but %d in separately started process #%d (pid %d)", ks.show(raw), ks.name, pt.hash[id], ct.hash[id], i, pids[i]),
 						map[string]interface{}{"key_set": ks.name, "key": ks.show(raw), "parent": pt.hash[id], "child": ct.hash[id], "child_no": i})
 				}
@@ -160,7 +164,7 @@ func runProc(r *ev.Run, cov ev.Coverage, parent []*table) {
 					a, b := pt.shard[id*maxShard+n-1], ct.shard[id*maxShard+n-1]
 					if a != b && !reported {
 						reported = true
-						r.Violate(fmt.Sprintf("C05/proc/%s/shard-differs-between-processes", ks.name),
+						r.Violate(fmt.Sprintf("C05/proc/%s/shard-differs-between-processes", ks.class()),
 							fmt.Sprintf("key %s (%s), %d shards: shard %d in the parent process but %d in separately started process #%d (pid %d)", ks.show(raw), ks.name, n, a, b, i, pids[i]),
 							map[string]interface{}{"key_set": ks.name, "key": ks.show(raw), "nshard": n, "parent": a, "child": b, "child_no": i})
 					}
